@@ -234,6 +234,8 @@ class World:
                 h = rets.hints[k] if rets.hints else hint
                 if isinstance(r, (self.bs.Bits, self.bs.Array)) and len(getattr(r, 'data', r)) > 200000:
                     # too large to project (adversarial repeat counts): not tracked, not encoded
+                    if call['op'] != 'rawcall':
+                        raise enc.Unloggable('result larger than 200000 bits')
                     out['ids'].append('')
                     out['alias'].append('')
                     out['vals'].append([13])
